@@ -15,6 +15,9 @@
 //!     64 KiB, the prefixes "glyph ids 0..=j" for j within ±4 of where the subset's padded / unpadded glyf
 //!     total reaches 0x10000 and 0x1FFFF, under {DEFAULT, RETAIN_GIDS, NO_HINTING} (8 flag sets and a
 //!     second pass in thorough);
+//! * one derived font (Roboto-Regular.abc.ttf plus a cmap format 14 subtable; no glyf corpus font has
+//!   one) whose variation selectors are requested like characters: a requested (character, selector)
+//!   sequence must stay "use default" or map to a glyph with equal observations;
 //! * flags: all 2^5 combinations of {NO_HINTING, RETAIN_GIDS, SET_OVERLAPS_FLAG, NOTDEF_OUTLINE,
 //!   GLYPH_NAMES} (singles layer: default only in quick, 3 combinations in thorough);
 //! * for every case the subset is produced, verified against the original, then subset *again* with the
@@ -340,6 +343,9 @@ struct FontInfo {
     bch: Vec<u32>,
     tiny: bool,
     colr: bool,
+    /// cmap format 14: (character, variation selector, Some(glyph) for a non-default mapping / None for
+    /// "use the default glyph")
+    variants: Vec<(u32, u32, Option<u32>)>,
     /// more than HUGE_CMAP mapped characters (AdobeBlank maps 1.1 M characters to one glyph): every
     /// request naming that glyph costs seconds, so the request space is reduced (see `requests_for`)
     huge_cmap: bool,
@@ -439,6 +445,20 @@ fn load_font(name: String, bytes: Vec<u8>, index: u32, tier: Tier) -> Option<Fon
         bch: vec![],
         tiny: false,
         colr: font.colr().is_ok(),
+        variants: font
+            .charmap()
+            .variant_mappings()
+            .map(|(c, sel, m)| {
+                (
+                    c,
+                    sel,
+                    match m {
+                        skrifa::charmap::MapVariant::UseDefault => None,
+                        skrifa::charmap::MapVariant::Variant(g) => Some(g.to_u32()),
+                    },
+                )
+            })
+            .collect(),
         huge_cmap: false,
         nonconforming_cmap: font
             .cmap()
@@ -465,8 +485,9 @@ fn load_font(name: String, bytes: Vec<u8>, index: u32, tier: Tier) -> Option<Fon
     }
     boundary_sets(&font, &mut fi);
     let valid_chars = fi.cmap.iter().filter(|(_, g)| **g < num_glyphs).count();
-    let items = num_glyphs as usize + valid_chars + 1;
-    fi.tiny = items <= tier.pick(TINY_ITEMS_QUICK, TINY_ITEMS_THOROUGH);
+    let selectors: BTreeSet<u32> = fi.variants.iter().map(|v| v.1).collect();
+    let items = num_glyphs as usize + valid_chars + 1 + selectors.len();
+    fi.tiny = !selectors.is_empty() && items <= 12 || items <= tier.pick(TINY_ITEMS_QUICK, TINY_ITEMS_THOROUGH);
     fi.bytes = bytes;
     Some(fi)
 }
@@ -664,6 +685,9 @@ fn requests_for(fi: &FontInfo, tier: Tier) -> Vec<Planned> {
                 c += 1;
             }
             it.push((true, c));
+            // variation selectors are requested like characters
+            let selectors: BTreeSet<u32> = fi.variants.iter().map(|v| v.1).collect();
+            it.extend(selectors.into_iter().map(|s| (true, s)));
         }
         let k = it.len();
         (it, k)
@@ -974,6 +998,7 @@ struct Outcome {
     nonempty_compared: usize,
     skipped_notdef: usize,
     skipped_ref_err: usize,
+    variants_checked: usize,
     digest: u64,
 }
 
@@ -1040,6 +1065,11 @@ fn verify(fi: &FontInfo, req: &Request, flags: u16, out: &[u8]) -> Result<Outcom
             fi.closure(g, &mut expected);
         }
     }
+    for (c, sel, target) in &fi.variants {
+        if let (true, true, Some(g)) = (req_chars.contains(c), req_chars.contains(sel), target) {
+            fi.closure(*g, &mut expected);
+        }
+    }
     if retain {
         let need = expected.iter().next_back().unwrap() + 1;
         if sub_n < need {
@@ -1065,6 +1095,29 @@ fn verify(fi: &FontInfo, req: &Request, flags: u16, out: &[u8]) -> Result<Outcom
                 }
                 None => viol!("requested character not mapped", "U+{c:04X} (original glyph {g}) has no mapping in the subset"),
             }
+        }
+    }
+    let mut variants_checked = 0usize;
+    // variation sequences (cmap format 14): when both the base character and the selector are requested
+    // the sequence must keep its meaning — "use the default glyph" stays so, a non-default glyph maps to
+    // a glyph that is then compared like any other image
+    for (c, sel, target) in &fi.variants {
+        if !(req_chars.contains(c) && req_chars.contains(sel)) {
+            continue;
+        }
+        let got = sub_cm.map_variant(*c, *sel);
+        variants_checked += 1;
+        match (target, got) {
+            (None, Some(skrifa::charmap::MapVariant::UseDefault)) => {}
+            (Some(g), Some(skrifa::charmap::MapVariant::Variant(n))) if *g < fi.num_glyphs => {
+                pairs.entry((*g, n.to_u32())).or_insert("requested variation sequence's glyph");
+                char_of.entry((*g, n.to_u32())).or_insert(*c);
+            }
+            (Some(g), _) if *g >= fi.num_glyphs => {}
+            (t, g) => viol!(
+                "requested variation sequence not preserved",
+                "U+{c:04X} U+{sel:04X}: original {t:?}, subset {g:?}"
+            ),
         }
     }
     for (c, n) in sub_cm.mappings() {
@@ -1252,6 +1305,7 @@ fn verify(fi: &FontInfo, req: &Request, flags: u16, out: &[u8]) -> Result<Outcom
         nonempty_compared,
         skipped_notdef,
         skipped_ref_err,
+        variants_checked,
         digest: h.finish(),
     })
 }
@@ -1272,6 +1326,7 @@ struct Local {
     skipped_ref_err: u64,
     resubsets: u64,
     errs: u64,
+    variants: u64,
     font_ns: BTreeMap<usize, u64>,
 }
 
@@ -1332,6 +1387,7 @@ fn check_case(run: &Run, fi: &FontInfo, req: &Request, flags: u16, resubset: boo
     l.outlines += o1.compared_outlines as u64;
     l.skipped_notdef += o1.skipped_notdef as u64;
     l.skipped_ref_err += o1.skipped_ref_err as u64;
+    l.variants += o1.variants_checked as u64;
     let mut h = Fnv::new();
     h.str(&fi.name);
     h.u64(o1.digest);
@@ -1469,9 +1525,82 @@ fn load_corpus(tier: Tier) -> Vec<FontInfo> {
             jobs.push((name, bytes, 0));
         }
     }
+    // No glyf-flavoured corpus font carries a cmap format 14 subtable (the corpus fonts that do are CFF
+    // or bitmap-only). One derived font adds such a subtable to Roboto-Regular.abc.ttf so that the
+    // variation-sequence part of the oracle is exercised.
+    if let Some((_, base, _)) = jobs.iter().find(|j| j.0.ends_with("Roboto-Regular.abc.ttf")) {
+        if let Some(b) = with_cmap14(base) {
+            jobs.push(("derived:Roboto-Regular.abc.ttf+cmap14".to_string(), b, 0));
+        }
+    }
     jobs.into_par_iter()
         .filter_map(|(n, b, i)| load_font(n, b, i, tier))
         .collect()
+}
+
+/// Copy of a font whose cmap gains a (0,5) format 14 subtable: U+FE00: 'a' default, 'b' → glyph 3;
+/// U+E0100: 'a' → glyph 2, 'c' → glyph 1. The existing Unicode subtable is kept byte for byte.
+fn with_cmap14(bytes: &[u8]) -> Option<Vec<u8>> {
+    let font = FontRef::new(bytes).ok()?;
+    let cmap = font.cmap().ok()?;
+    let data = cmap.offset_data().as_bytes();
+    // first Unicode BMP subtable (format 4), copied verbatim
+    let rec = cmap.encoding_records().iter().find(|r| {
+        r.subtable(cmap.offset_data()).map(|s| s.format() == 4).unwrap_or(false)
+    })?;
+    let off = rec.subtable_offset().to_u32() as usize;
+    let len = u16::from_be_bytes([*data.get(off + 2)?, *data.get(off + 3)?]) as usize;
+    let fmt4 = data.get(off..off + len)?.to_vec();
+    let u24 = |v: u32| [(v >> 16) as u8, (v >> 8) as u8, v as u8];
+    // format 14 body
+    let header_len = 10 + 2 * 11;
+    let mut default_fe00 = vec![];
+    default_fe00.extend_from_slice(&1u32.to_be_bytes());
+    default_fe00.extend_from_slice(&u24(0x61));
+    default_fe00.push(0);
+    let mut nondef_fe00 = vec![];
+    nondef_fe00.extend_from_slice(&1u32.to_be_bytes());
+    nondef_fe00.extend_from_slice(&u24(0x62));
+    nondef_fe00.extend_from_slice(&3u16.to_be_bytes());
+    let mut nondef_e0100 = vec![];
+    nondef_e0100.extend_from_slice(&2u32.to_be_bytes());
+    nondef_e0100.extend_from_slice(&u24(0x61));
+    nondef_e0100.extend_from_slice(&2u16.to_be_bytes());
+    nondef_e0100.extend_from_slice(&u24(0x63));
+    nondef_e0100.extend_from_slice(&1u16.to_be_bytes());
+    let o1 = header_len;
+    let o2 = o1 + default_fe00.len();
+    let o3 = o2 + nondef_fe00.len();
+    let total = o3 + nondef_e0100.len();
+    let mut f14 = vec![];
+    f14.extend_from_slice(&14u16.to_be_bytes());
+    f14.extend_from_slice(&(total as u32).to_be_bytes());
+    f14.extend_from_slice(&2u32.to_be_bytes());
+    f14.extend_from_slice(&u24(0xFE00));
+    f14.extend_from_slice(&(o1 as u32).to_be_bytes());
+    f14.extend_from_slice(&(o2 as u32).to_be_bytes());
+    f14.extend_from_slice(&u24(0xE0100));
+    f14.extend_from_slice(&0u32.to_be_bytes());
+    f14.extend_from_slice(&(o3 as u32).to_be_bytes());
+    f14.extend(default_fe00);
+    f14.extend(nondef_fe00);
+    f14.extend(nondef_e0100);
+    // cmap: (0,3) fmt4, (0,5) fmt14, (3,1) fmt4 (same subtable)
+    let hdr = 4 + 3 * 8;
+    let mut t = vec![];
+    t.extend_from_slice(&0u16.to_be_bytes());
+    t.extend_from_slice(&3u16.to_be_bytes());
+    for (p, e, o) in [(0u16, 3u16, hdr), (0, 5, hdr + fmt4.len()), (3, 1, hdr)] {
+        t.extend_from_slice(&p.to_be_bytes());
+        t.extend_from_slice(&e.to_be_bytes());
+        t.extend_from_slice(&(o as u32).to_be_bytes());
+    }
+    t.extend(fmt4);
+    t.extend(f14);
+    let mut fb = write_fonts::FontBuilder::new();
+    fb.add_raw(Tag::new(b"cmap"), t);
+    fb.copy_missing_tables(font);
+    Some(fb.build())
 }
 
 fn body(run: &Run, replay: Option<&Value>) {
@@ -1547,7 +1676,7 @@ fn body(run: &Run, replay: Option<&Value>) {
         font_rows.push(json!({
             "font": fi.name, "glyphs": fi.num_glyphs, "chars": fi.cmap.len(), "axes": fi.axes, "colr": fi.colr,
             "long_metrics": fi.num_long_metrics, "composites": fi.comps.iter().filter(|c| !c.is_empty()).count(),
-            "tiny_all_subsets": fi.tiny, "boundary_gids": fi.bgl, "boundary_chars": fi.bch,
+            "tiny_all_subsets": fi.tiny, "variation_sequences": fi.variants.len(), "boundary_gids": fi.bgl, "boundary_chars": fi.bch,
             "requests": reqs.len(), "cases": reqs.iter().map(|p| p.flags.len()).sum::<usize>(),
             "ref_draw_errors": fi.obs.iter().filter(|o| !o.ok).count(),
             "huge_cmap_reduced_space": fi.huge_cmap, "nonconforming_cmap_no_char_requests": fi.nonconforming_cmap,
@@ -1620,6 +1749,7 @@ fn body(run: &Run, replay: Option<&Value>) {
             a.skipped_ref_err += b.skipped_ref_err;
             a.resubsets += b.resubsets;
             a.errs += b.errs;
+            a.variants += b.variants;
             for (k, v) in b.font_ns {
                 *a.font_ns.entry(k).or_default() += v;
             }
@@ -1646,4 +1776,5 @@ fn body(run: &Run, replay: Option<&Value>) {
     run.count("outline_comparisons_skipped_notdef_rule", merged.skipped_notdef);
     run.count("pairs_skipped_reference_draw_error", merged.skipped_ref_err);
     run.count("cases_with_failure", merged.errs);
+    run.count("variation_sequences_compared", merged.variants);
 }
